@@ -43,6 +43,7 @@ type dsseKey struct {
 	pub  crypto.PublicKey
 	pubB []byte
 	pri  crypto.PrivateKey
+	hash crypto.Hash
 }
 
 // Universe is the set of keys a campaign draws signers and trusted keys from.
@@ -119,14 +120,15 @@ func getUniverse() *Universe {
 				u.PGP = append(u.PGP, e)
 			}
 		}
-		add := func(kind string, pri crypto.PrivateKey) {
-			sv, err := signature.LoadSignerVerifier(pri, crypto.SHA256)
+		addH := func(kind string, pri crypto.PrivateKey, h crypto.Hash) {
+			sv, err := signature.LoadSignerVerifier(pri, h)
 			if err != nil {
 				return
 			}
 			pub, _ := sv.PublicKey()
-			u.DSSE = append(u.DSSE, dsseKey{kind: kind, sv: sv, pub: pub, pubB: pubBytes(pub), pri: pri})
+			u.DSSE = append(u.DSSE, dsseKey{kind: kind, sv: sv, pub: pub, pubB: pubBytes(pub), pri: pri, hash: h})
 		}
+		add := func(kind string, pri crypto.PrivateKey) { addH(kind, pri, crypto.SHA256) }
 		for _, n := range []string{"ed25519", "ecdsa", "rsa"} {
 			if k, err := loadPEMKey(filepath.Join(repo, "test", "keys", n+"-private.pem")); err == nil {
 				add(n, k)
@@ -140,6 +142,15 @@ func getUniverse() *Universe {
 		}
 		rk, _ := rsa.GenerateKey(rand.Reader, 2048)
 		add("rsa", rk)
+		// signers configured with another digest than SHA-256 (the usual pairing for P-384, and
+		// what RSA users who follow their key size pick): the signature descriptor still records
+		// SHA-256 for the metadata, the signature itself is over SHA-384 / SHA-512
+		if ek, err := ecdsa.GenerateKey(elliptic.P384(), rand.Reader); err == nil {
+			addH("ecdsa", ek, crypto.SHA384)
+		}
+		if rk2, err := rsa.GenerateKey(rand.Reader, 2048); err == nil {
+			addH("rsa", rk2, crypto.SHA512)
+		}
 		universe = u
 	})
 	return universe
@@ -152,6 +163,7 @@ func (u *Universe) save(path string) error {
 		DSSE []struct {
 			Kind string
 			Key  []byte
+			Hash uint
 		}
 	}
 	var sv saved
@@ -170,7 +182,8 @@ func (u *Universe) save(path string) error {
 		sv.DSSE = append(sv.DSSE, struct {
 			Kind string
 			Key  []byte
-		}{k.kind, der})
+			Hash uint
+		}{k.kind, der, uint(k.hash)})
 	}
 	b, err := json.Marshal(sv)
 	if err != nil {
@@ -189,6 +202,7 @@ func loadUniverse(path string) *Universe {
 		DSSE []struct {
 			Kind string
 			Key  []byte
+			Hash uint
 		}
 	}
 	if json.Unmarshal(b, &sv) != nil {
@@ -207,12 +221,16 @@ func loadUniverse(path string) *Universe {
 		if err != nil {
 			return nil
 		}
-		s, err := signature.LoadSignerVerifier(pri, crypto.SHA256)
+		h := crypto.Hash(k.Hash)
+		if h == 0 {
+			h = crypto.SHA256
+		}
+		s, err := signature.LoadSignerVerifier(pri, h)
 		if err != nil {
 			return nil
 		}
 		pub, _ := s.PublicKey()
-		u.DSSE = append(u.DSSE, dsseKey{kind: k.Kind, sv: s, pub: pub, pubB: pubBytes(pub), pri: pri})
+		u.DSSE = append(u.DSSE, dsseKey{kind: k.Kind, sv: s, pub: pub, pubB: pubBytes(pub), pri: pri, hash: h})
 	}
 	return u
 }
